@@ -363,6 +363,8 @@ def c15_r2_units(ctx, rule="C15.R2"):
             if COL in sh:
                 cmps.append(sh)
     want_col = [s for s in cmps if any(q.wild("Le(cast<usize>(%s),U)" % COL, f) for f in q.test_forms(s))]
+    # `while let Some(c) = it.next_if(|_| idx < col)`: the same stop test, held by the iterator
+    want_col += [s for s in cmps if q.wild("discr(Peekable::next_if(*,\u03bb(Lt(^var:usize,cast<usize>(^%s)))))" % COL, s)]
     SUM = "Add(from<u64>(%s),from<u64>(%s))" % (COL, SPAN)
     want_end = [s for s in cmps if "U" in s.replace(SUM, "") and q.wild("L?(*%s*" % SUM, s.replace("Lt", "L?").replace("Le", "L?"))]
     gb = gets[0][0]
